@@ -456,6 +456,9 @@ func (world) RunCase(t *tape.Tape, st *super.Stats) *super.Violation {
 			kinds = []ctxKind{ctxXNode, ctxEntry}
 		} else if bi == 0 && t.Rare(8) {
 			kinds = []ctxKind{ctxEntryValidate}
+		} else if t.Rare(10) {
+			kinds = []ctxKind{ctxEntryDebug}
+			inc("reach:debug_mode_runs")
 		} else if t.Rare(16) {
 			kinds = append(kinds, ctxXNode)
 		}
@@ -495,9 +498,15 @@ func (world) RunCase(t *tape.Tape, st *super.Stats) *super.Violation {
 				}
 			}
 			// exhaustive single-fault enumeration
+			errText := 0
+			if t.Rare(6) {
+				errText = 1 + t.Draw(3) // a tree whose errors have an empty / blank / newline-terminated text
+				inc("reach:tree_error_with_unusual_text")
+			}
 			for k := 1; k <= n; k++ {
 				tree.Reset()
 				tree.FailAt = map[int]bool{k: true}
+				tree.ErrText = errText
 				fo := safeRun(b.m, ck, cur, context.Background())
 				inc("run:single_fault")
 				fired := false
@@ -620,7 +629,12 @@ func judgeRun(gname string, o runOut, tree *faulttree.Tree, caseDesc func() stri
 		msg := o.err.Error()
 		carried := false
 		for _, e := range tree.Errors {
-			if strings.Contains(msg, e.Sentinel) {
+			if e.Blank {
+				// an error without text cannot be recognised in a message; being an error (and no value) is all that can be asked
+				carried = true
+				break
+			}
+			if strings.Contains(msg, strings.TrimSpace(e.Sentinel)) {
 				carried = true
 				break
 			}
